@@ -136,6 +136,18 @@ CHECKS = {
             "exact-integer model must be one of them with the same loss.",
             "Trusted: TLC; the linear read-out model is defined in TLA+ and mirrored in torch (cross-checked through the final loss).",
             "DESIGN.md §5 C20"),
+    "C16": (["Meme", "LociOps", "Loci", "Loci_Trace"],
+            "step-shaped TLA+ model of the MEME parser over all valid layouts (Meme.tla; as-found commit rule as spec-level "
+            "mutant) and declarative window/filter/interleave spec (LociOps) model-checked with TLC; every layout rendered to a "
+            "real file and every enumerated locus call executed with in-memory and file inputs, explained by Loci_Trace",
+            "TLC generates every valid MEME layout of the scope and checks that the line-by-line parser commits every motif in "
+            "order; each layout is rendered (LF/CRLF, trailing spaces, final newline or not) and read by read_meme. For "
+            "extract_loci TLC enumerates loci at every offset incl. both chromosome ends, windows, jitter, filters, caps and "
+            "interleaved sets; returned bases and position-coded signal values must be exactly the specified windows, in order, "
+            "identically for arrays and FASTA/bigWig/BED files.",
+            "Trusted: TLC; pyfaidx/pyBigWig file round trip; windows touching a chromosome end are 'either'; excluded chromosomes "
+            "are removed before the round-robin.",
+            "DESIGN.md §5 C16"),
 }
 
 ALL = ["C%02d" % i for i in range(1, 21)]
